@@ -582,6 +582,61 @@ fn related_rp_one(rel: u8, with_own: bool) -> Vec<(String, String)> {
     }
 }
 
+/// U2F authentication names ONE credential, by key handle.  A held credential whose id has `len`
+/// bytes (filed under the application, as a U2F registration files it) and a request whose key
+/// handle stands in a byte relation to it: only the equal handle is answered.  `rel`: 0 equal,
+/// 1..=4 the id plus 1 / 2 / 16 / 300 bytes, 5 the id minus its last byte, 6 the id twice, 7 the id
+/// padded with zeros to 256 bytes, 8 the first 255 bytes of the id, 9 the id with its last byte changed.
+const U2F_LENS: [usize; 12] = [1, 2, 16, 32, 64, 127, 128, 254, 255, 256, 300, 512];
+fn u2f_handle_one(len: usize, rel: u8, store_kind: u8) -> Vec<(String, String)> {
+    use passkey_authenticator::U2fApi;
+    use passkey_types::ctap2::Flags;
+    use passkey_types::u2f::{AuthenticationParameter, AuthenticationRequest};
+    let app = [0x51u8; 32];
+    let id: Vec<u8> = (0..len).map(|i| (i as u8).wrapping_mul(7).wrapping_add(3)).collect();
+    let mut p = seeded(&Seed { n: 3, rp: crate::oracles::b64::url_nopad(&app), handle: None, counter: Some(4), hmac: None });
+    p.credential_id = id.clone().into();
+    let asked: Vec<u8> = match rel {
+        0 => id.clone(),
+        1 => [id.clone(), vec![0]].concat(),
+        2 => [id.clone(), vec![0xFF, 1]].concat(),
+        3 => [id.clone(), vec![7; 16]].concat(),
+        4 => [id.clone(), vec![9; 300]].concat(),
+        5 => id[..len - 1].to_vec(),
+        6 => [id.clone(), id.clone()].concat(),
+        7 => {
+            let mut v = id.clone();
+            v.resize(v.len().max(256), 0);
+            v
+        }
+        8 => id[..len.min(255)].to_vec(),
+        _ => {
+            let mut v = id.clone();
+            *v.last_mut().unwrap() ^= 0x80;
+            v
+        }
+    };
+    let req = AuthenticationRequest { parameter: AuthenticationParameter::EnforceUserPresence, challenge: [3; 32], application: app, key_handle: asked.clone() };
+    macro_rules! go {
+        ($store:expr) => {{
+            let auth = Authenticator::new(Aaguid::new_empty(), $store, ScriptedUv::consenting(Log::new()));
+            par::catch(|| block_on(U2fApi::authenticate(&auth, req, 9, Flags::UP)).map(|_| ()).map_err(|e| format!("{e:?}")))
+        }};
+    }
+    let res = match store_kind {
+        0 => go!(Arc::new(tokio::sync::Mutex::new([(id.clone(), p)].into_iter().collect::<MemoryStore>()))),
+        1 => go!(Arc::new(tokio::sync::RwLock::new(Some(p)))),
+        _ => go!(Shared::new(RefStore::with(vec![p]))),
+    };
+    let what = format!("U2F authentication with a key handle of {} bytes (relation {rel} to the held {len}-byte credential id) on store kind {store_kind}", asked.len());
+    match res {
+        Err(p) => vec![("panic".into(), format!("{what}: {p}"))],
+        Ok(Ok(())) if asked != id => vec![("answered-with-a-credential-the-handle-does-not-name".into(), format!("{what} was answered"))],
+        Ok(Err(e)) if asked == id => vec![("named-credential-not-used".into(), format!("{what} failed: {e}"))],
+        _ => vec![],
+    }
+}
+
 pub fn eval(c: &Case) -> (Vec<Finding>, String) {
     if c.op.starts_with("store:") {
         eval_store(c)
@@ -703,6 +758,16 @@ pub fn run(ctx: &Ctx) -> Result<Run, String> {
             }
         }
     }
+    for len in U2F_LENS {
+        for rel in 0..10u8 {
+            for store_kind in 0..3u8 {
+                related.case(&("u2f-handle", len, rel, store_kind), true, "u2f-key-handle");
+                for (k, d) in u2f_handle_one(len, rel, store_kind) {
+                    related.finding(Finding::new(format!("u2f-handle/kind={k}"), d, json!({"u2f_handle": {"len": len, "rel": rel, "store": store_kind}})));
+                }
+            }
+        }
+    }
     let cs = cases(ctx.tier);
     let mut stats = par::sweep_cases(&cs, ctx.threads, |c, st| {
         let (fs, o) = eval(c);
@@ -740,6 +805,9 @@ pub fn run(ctx: &Ctx) -> Result<Run, String> {
 pub fn replay(_ctx: &Ctx, case: &Value) -> Result<Vec<Finding>, String> {
     if let Some(k) = case.get("rereg").and_then(|k| k.as_u64()) {
         return Ok(rereg_one(k as u8).into_iter().map(|(k, d)| Finding::new(format!("re-registration/kind={k}"), d, case.clone())).collect());
+    }
+    if let Some(u) = case.get("u2f_handle") {
+        return Ok(u2f_handle_one(u["len"].as_u64().unwrap_or(16) as usize, u["rel"].as_u64().unwrap_or(0) as u8, u["store"].as_u64().unwrap_or(0) as u8).into_iter().map(|(k, d)| Finding::new(format!("u2f-handle/kind={k}"), d, case.clone())).collect());
     }
     if let Some(r) = case.get("related_rp") {
         return Ok(related_rp_one(r["rel"].as_u64().unwrap_or(0) as u8, r["with_own"].as_bool().unwrap_or(false)).into_iter().map(|(k, d)| Finding::new(format!("related-rp/kind={k}"), d, case.clone())).collect());
